@@ -298,10 +298,13 @@ def run(pid, tier):
         thorough = tier == "thorough"
         vlib.harness_build(BIN)
         # ---- Leg M: generative tiny VM (design-level invariants of the same effect operators) ----
-        res = tc.model_check(chk, SPEC_MC, constants={"MaxDepth": 5 if thorough else 3}, workers=4, timeout=2400,
-                             tag=pid + "_mc")
-        chk.set("model", dict(spec=SPEC_MC, depth=5 if thorough else 3, distinct_states=res.distinct,
-                              invariants=["GasInv", "ConstRegs", "PcOk", "StackOrder", "ZeroOutside"], properties=["GasNeverUp", "WritesOwned"]))
+        if pid in ("C24", "C25", "C26") or thorough:
+            res = tc.model_check(chk, SPEC_MC, constants={"MaxDepth": 5 if thorough else 3}, workers=4, timeout=2400,
+                                 tag=pid + "_mc")
+            chk.set("model", dict(spec=SPEC_MC, depth=5 if thorough else 3, distinct_states=res.distinct,
+                                  invariants=["GasInv", "ConstRegs", "PcOk", "StackOrder", "ZeroOutside"], properties=["GasNeverUp", "WritesOwned"]))
+        else:
+            chk.set("model", "quick tier: the generative model FuelVM_MC runs in the C24/C25/C26 checks and in this check's thorough tier")
         # ---- Leg T ----
         tr = os.path.join(vlib.WORK, "%s_trace.ndjson" % pid)
         vlib.vh(["record", "vm", "--tier", tier, "--part", ",".join(PARTS[pid]), "-o", tr], bin=BIN, timeout=3000)
